@@ -13,6 +13,7 @@ round-trip oracle on the implementation, with the accuracy classes of the statem
 import Geodesy.Props.C03
 import Geodesy.Props.C07
 import Geodesy.Props.C11
+import Geodesy.Props.C06
 import Geodesy.Model.Registry
 import Geodesy.Lemmas.Real
 import Mathlib.Tactic.Linarith
@@ -216,6 +217,17 @@ theorem dms_roundtrip (o : Coor ℝ) (h0 : |o.c0 * (180 / Real.pi)| < 429496) (h
     simp only [Iso6709.dmsFwd, Iso6709.dmsInv, Iso6709.isoDms, Iso6709.geo, scalar_toDegrees, scalar_toRadians,
       Sexagesimal.iso_dms_roundtrip _ h0, Sexagesimal.iso_dms_roundtrip _ h1]
     congr 1 <;> field_simp
+
+/-- **`cart`: forward then inverse is the identity for every point of height zero** (every ellipsoid with
+`0 < f < 1`, every longitude in ]−π, π], every latitude strictly between the poles, beyond the cut-off distance
+from the axis) — proved with the ellipsoid's geometry in `C06.cart_roundtrip_on_surface` -/
+theorem cart_roundtrip_height_zero (p : Parsed ℝ) (ha : 0 < (p.ellps 0).a) (hf0 : 0 < (p.ellps 0).f) (hf1 : (p.ellps 0).f < 1)
+    (lam phi t : ℝ) (hl1 : -Real.pi < lam) (hl2 : lam ≤ Real.pi)
+    (hp1 : -(Real.pi / 2) < phi) (hp2 : phi < Real.pi / 2)
+    (hfar : (p.ellps 0).a * C06.cutoffLit ≤
+      (p.ellps 0).a * Real.cos phi / Real.sqrt (1 - Real.sin phi ^ 2 * (p.ellps 0).eccentricitySquared)) :
+    Ops.Cart.inv p (Ops.Cart.fwd p ⟨lam, phi, 0, t⟩) = ⟨lam, phi, 0, t⟩ :=
+  C06.cart_roundtrip_on_surface p ha hf0 hf1 lam phi t hl1 hl2 hp1 hp2 hfar
 
 end C01
 end Geodesy
